@@ -312,3 +312,66 @@ Proof.
     change (skip_spaces (32 :: X)) with (skip_spaces X). rewrite HX, HD. cbn [obind length Nat.leb].
     rewrite sp1_sp, HX. cbn [obind]. exact PR.
 Qed.
+
+(* ------------------------------------------------------------------ rows as blocks *)
+Record prow : Type := { w_m1 : text; w_d1 : text; w_y1 : text; w_m2 : text; w_d2 : text; w_y2 : text;
+                        w_sym : text; w_act : text; w_qty : text; w_pa : text; w_pb : text;
+                        w_oc : option (text * text); w_of : option (text * text) }.
+Definition prow_ok (w : prow) : Prop :=
+  (digits (w_m1 w) /\ digits (w_d1 w) /\ digits (w_y1 w) /\ w_m1 w <> [] /\ w_d1 w <> [] /\ w_y1 w <> [])
+  /\ (digits (w_m2 w) /\ digits (w_d2 w) /\ digits (w_y2 w) /\ w_m2 w <> [] /\ w_d2 w <> [] /\ w_y2 w <> [])
+  /\ (w_sym w <> [] /\ forallb is_updot (w_sym w) = true) /\ (w_act w <> [] /\ forallb is_upper (w_act w) = true)
+  /\ (digits (w_qty w) /\ w_qty w <> []) /\ decparts (w_pa w) (w_pb w)
+  /\ odec_ok (w_oc w) /\ odec_ok (w_of w) /\ (w_oc w <> None \/ w_of w <> None).
+Definition pdesc (st : bool) : text := sty st prerow0_desc prerow1_desc.
+Definition rblk (st : bool) (w : prow) (R : text) : text :=
+  w_m1 w ++ 47 :: w_d1 w ++ 47 :: w_y1 w ++ 32 :: w_m2 w ++ 47 :: w_d2 w ++ 47 :: w_y2 w ++ pmkt st
+  ++ w_sym w ++ 32 :: w_act w ++ 32 :: w_qty w ++ 32 :: 36 :: w_pa w ++ 46 :: w_pb w ++ prerow_rest
+  ++ (w_sym w ++ pdesc st) ++ comm_tail st (w_oc w) (w_of w) R.
+Definition caps_of (w : prow) : tc_caps :=
+  {| cp_td := (w_m1 w, w_d1 w, w_y1 w); cp_sd := (w_m2 w, w_d2 w, w_y2 w); cp_sym := w_sym w; cp_act := w_act w;
+     cp_n := w_qty w; cp_price := w_pa w ++ 46 :: w_pb w; cp_comm := odec_text (w_oc w); cp_fee := odec_text (w_of w) |}.
+
+Lemma comm_tail_app st oc of R : (oc <> None \/ of <> None) -> comm_tail st oc of R = comm_tail st oc of [] ++ R.
+Proof.
+  intros H. destruct oc as [[a b]|], of as [[a2 b2]|]; cbn [comm_tail]; rewrite <- ?app_assoc, ?app_nil_r; cbn [app];
+    rewrite <- ?app_assoc; try reflexivity. destruct H; congruence.
+Qed.
+Lemma rblk_app st w R : prow_ok w -> rblk st w R = rblk st w [] ++ R.
+Proof.
+  intros (_ & _ & _ & _ & _ & _ & _ & _ & Hne). unfold rblk. rewrite (comm_tail_app st _ _ R Hne).
+  repeat (rewrite <- app_assoc || rewrite <- app_comm_cons). reflexivity.
+Qed.
+
+Lemma rblk_hit st w R : prow_ok w -> find m_pre_row (rblk st w R) = Some (caps_of w, prem st ++ R).
+Proof.
+  intros ((M1 & D1 & Y1 & N1 & N2 & N3) & (M2 & D2 & Y2 & N4 & N5 & N6) & (S1 & S2) & (A1 & A2) & (Q1 & Q2) & HP & Hc & Hf & Hne).
+  apply find_hit. unfold rblk, caps_of. apply m_pre_row_eval; auto.
+  apply r2_shapes; auto. rewrite forallb_app. rewrite (forallb_imp is_updot not_nl _ updot_not_nl S2). destruct st; reflexivity.
+Qed.
+Lemma prem_skip st R : find m_pre_row (prem st ++ R) = find m_pre_row R.
+Proof. destruct st; reflexivity. Qed.
+
+Definition pblk (st : bool) (_ : nat) (w : prow) : text := rblk st w [].
+Lemma pblk_nonnil st i w : prow_ok w -> (1 <= length (pblk st i w))%nat.
+Proof.
+  intros ((M1 & D1 & Y1 & N1 & _) & _). unfold pblk, rblk. rewrite app_length. destruct (w_m1 w); [congruence|]. cbn [length]. lia.
+Qed.
+Lemma pblocks_length st ws : Forall prow_ok ws -> forall i, (length ws <= length (blocks (pblk st) i ws))%nat.
+Proof.
+  induction 1 as [|w ws Hw Hws IH]; intros i; [cbn; lia|]. cbn [blocks length]. rewrite app_length.
+  pose proof (pblk_nonnil st i w Hw). specialize (IH (S i)). lia.
+Qed.
+
+Lemma rows_all_matches st ws hd tl :
+  Forall prow_ok ws -> (forall X, find m_pre_row (hd ++ X) = find m_pre_row X) -> find m_pre_row tl = None ->
+  all_matches m_pre_row (hd ++ blocks (pblk st) 1 ws ++ tl) = map caps_of ws.
+Proof.
+  intros Hws Hhd Htl. unfold all_matches.
+  rewrite (amf_find_eq m_pre_row _ (blocks (pblk st) 1 ws ++ tl) _ (Hhd _)).
+  rewrite (all_matches_fuel_blocks m_pre_row prow_ok (fun _ => True) (pblk st) (fun _ _ => prem st) (fun _ w => caps_of w)); auto.
+  - apply vals_const.
+  - intros i w R Hw _. unfold pblk. rewrite <- (rblk_app st w R Hw). apply rblk_hit. exact Hw.
+  - intros i w R _. apply prem_skip.
+  - rewrite !app_length. pose proof (pblocks_length st ws Hws 1). lia.
+Qed.
